@@ -38,6 +38,7 @@ TRANSPARENT = {
     "IntoIterator::into_iter", "Deref::deref", "Box::new", "String::as_str", "Vec::as_slice",
     "Option::cloned", "Option::copied", "Vec::iter", "slice::iter_mut", "Result::as_ref", "hint::must_use",
     "Iterator::by_ref", "AsMut::as_mut", "Vec::as_mut_slice", "DerefMut::deref_mut", "BorrowMut::borrow_mut",
+    "BTreeSet::iter", "HashSet::iter", "HashMap::iter", "BTreeMap::iter", "VecDeque::iter",          # `for x in c.iter()` is `for x in &c`
 }
 
 
@@ -1021,8 +1022,29 @@ def _assume(t, facts):
     return go(t)
 
 
+def _dedupe_conj(c):
+    """a && (a && b)  is  a && b  for a condition `a` that only reads (no `?`, no effects): asked twice, e.g. by the caller and again by a helper"""
+    if not (c[0] == "op" and c[1] == "&&"):
+        return c
+    parts = _conj(c)
+    uniq = []
+    dup = False
+    for x in parts:
+        if x in uniq and not any(y[0] in ("try", "mut", "seq", "for", "early", "ret") for y in subterms(x)):
+            dup = True
+            continue
+        uniq.append(x)
+    if not dup:
+        return c
+    r = uniq[-1]
+    for x in reversed(uniq[:-1]):
+        r = ("op", "&&", [x, r])
+    return r
+
+
 def _mk_if_raw(c, t, e):
     """if c {t} else {e} with the boolean identities applied"""
+    c = _dedupe_conj(c)
     if c[0] in ("iflet", "op") and t[0] in ("if", "call", "struct", "tup"):
         facts = {_show(x) for x in _conj(c) if x[0] == "iflet" or (x[0] == "op" and x[1] not in ("&&", "||"))}
         if facts and any(f in _show(t) for f in facts):
@@ -2997,8 +3019,9 @@ class Norm:
                 return args[0]       # &str / String -> String, however it is spelled, is the same text
             if name in ("From::from", "Into::into") and len(args) == 1 and _is_int_widening(e, e["args"][0]):
                 return ("cast", peel_ty(e.get("ty", "")), args[0])
-            if name == "ToTokens::to_tokens" and len(args) == 2 and args[0][0] == "tpl" and args[0][1] == "quote":
-                return ("call", "Extend::extend", [args[1], args[0]])     # quote!(..).to_tokens(ts)  ==  ts.extend(quote!(..))
+            if name == "ToTokens::to_tokens" and len(args) == 2:
+                x = args[0] if args[0][0] == "tpl" and args[0][1] == "quote" else ("tpl", "quote", "#0", [args[0]])
+                return ("call", "Extend::extend", [args[1], x])     # x.to_tokens(ts)  ==  ts.extend(quote!(#x))
             if name in ("ToTokens::to_token_stream", "ToTokens::into_token_stream") and len(args) == 1:
                 return ("tpl", "quote", "#0", [args[0]])       # ToTokens::to_token_stream(x)  ==  quote!(#x)
             if name == "FromIterator::from_iter" and len(args) == 1:
@@ -3040,8 +3063,9 @@ class Norm:
                     return inl
             recv = self._t(e["recv"])
             args = [self._t(a) for a in e["args"]]
-            if name == "ToTokens::to_tokens" and len(args) == 1 and recv[0] == "tpl" and recv[1] == "quote":
-                return ("call", "Extend::extend", [args[0], recv])     # quote!(..).to_tokens(ts)  ==  ts.extend(quote!(..))
+            if name == "ToTokens::to_tokens" and len(args) == 1:
+                x = recv if recv[0] == "tpl" and recv[1] == "quote" else ("tpl", "quote", "#0", [recv])
+                return ("call", "Extend::extend", [args[0], x])     # x.to_tokens(ts)  ==  ts.extend(quote!(#x))
             if name in ("ToTokens::to_token_stream", "ToTokens::into_token_stream") and not args:
                 return ("tpl", "quote", "#0", [recv])       # x.to_token_stream()  ==  quote!(#x)
             if name in _TO_STRING and not args and _is_string_conv(e, e["recv"]):
@@ -3115,6 +3139,14 @@ class Norm:
                 return _mk_if(recv[2][0], recv[2][1], ("tpl", "quote", "", []))
             if name in TRANSPARENT and not args:
                 return recv
+            if name == "Iterator::map" and len(args) == 1 and args[0][0] == "closure" and args[0][2] == 1 and recv[0] == "call" and recv[1] == "Iterator::filter_map" \
+                    and len(recv[2]) == 2 and recv[2][1][0] == "closure" and recv[2][1][2] == 1:
+                # it.filter_map(f).map(g)  ==  it.filter_map(|x| f(x).map(g))
+                f = recv[2][1]
+                g = args[0]
+                inner = ("closure", g[1] + 1, g[2], rewrite(g[3], lambda n: ("cparam", n[1] + 1, n[2]) if n[0] == "cparam" and n[1] >= g[1]
+                                                               else ("closure", n[1] + 1, n[2], n[3]) if n[0] == "closure" and n[1] >= g[1] else None))
+                return ("call", "Iterator::filter_map", [recv[2][0], ("closure", f[1], 1, ("call", "Option::map", [f[3], inner]))])
             if name == "Iterator::collect" and not args and any(x[0] == "call" and x[1] in ("Iterator::chain", "iter::once") for x in subterms(recv, closures=False)):
                 # once(a).chain(xs.map(f)).collect()  ==  the list built as: a, then f(x) for x in xs
                 parts = _seq_parts(recv)
